@@ -23,8 +23,20 @@ func (r *ReadFS) OpenFile(path string, flag experimentalsys.Oflag, perm fs.FileM
 	default: // sys.O_RDONLY (integer zero) so we are ok!
 	}
 
+	// A read-only access mode doesn't make the open read-only: O_TRUNC empties
+	// an existing file and O_CREAT creates a missing one, so neither may reach
+	// the underlying file system.
+	if flag&experimentalsys.O_TRUNC != 0 {
+		return nil, experimentalsys.EROFS
+	}
+	created := flag&experimentalsys.O_CREAT != 0
+	flag &^= experimentalsys.O_CREAT
+
 	f, errno := r.FS.OpenFile(path, flag, perm)
 	if errno != 0 {
+		if created && errno == experimentalsys.ENOENT {
+			errno = experimentalsys.EROFS // it would have been created
+		}
 		return nil, errno
 	}
 	return &readFile{f}, 0
